@@ -88,7 +88,8 @@ func (runInfo *runInfoStruct) invokeComparisonOperator(operator *ast.ComparisonO
 	if runInfo.rv.Kind() == reflect.Interface && !runInfo.rv.IsNil() {
 		runInfo.rv = runInfo.rv.Elem()
 	}
-	lhsV := runInfo.rv
+	// the left operand is the value it has now: the right operand may write to the place it was read from
+	lhsV := detachValue(runInfo.rv)
 
 	runInfo.expr = operator.RHS
 	runInfo.invokeExpr()
@@ -153,7 +154,8 @@ func (runInfo *runInfoStruct) invokeAddOperator(operator *ast.AddOperator) {
 	if runInfo.rv.Kind() == reflect.Interface && !runInfo.rv.IsNil() {
 		runInfo.rv = runInfo.rv.Elem()
 	}
-	lhsV := runInfo.rv
+	// the left operand is the value it has now: the right operand may write to the place it was read from
+	lhsV := detachValue(runInfo.rv)
 
 	runInfo.expr = operator.RHS
 	runInfo.invokeExpr()
@@ -239,7 +241,8 @@ func (runInfo *runInfoStruct) invokeMultiplyOperator(operator *ast.MultiplyOpera
 	if runInfo.rv.Kind() == reflect.Interface && !runInfo.rv.IsNil() {
 		runInfo.rv = runInfo.rv.Elem()
 	}
-	lhsV := runInfo.rv
+	// the left operand is the value it has now: the right operand may write to the place it was read from
+	lhsV := detachValue(runInfo.rv)
 
 	runInfo.expr = operator.RHS
 	runInfo.invokeExpr()
